@@ -127,6 +127,23 @@ Section Statements.
     intros Hi Hf. exact (search_pages_partition all s fs maxr (inv_stream_ok all s Hi) fuel start Hf).
   Qed.
 
+  (* ... in particular for every live stream after any history of commands and arrivals *)
+  Theorem C16_search_pages_partition_reachable n0 ops (fs : fset M) maxr start :
+    exists sv evs,
+      run (server0 n0) ops = Ok (sv, evs) /\
+      forall s, In s (sv_streams sv) ->
+        let n := stream_len s (len (sv_all sv)) in
+        exists pages,
+          search_pages (S (N.to_nat (n - start))) (sv_all sv) s start maxr fs = Ok pages /\
+          chain start pages (N.max start n) /\
+          concat (map fst pages) = hits (sv_all sv) s fs start (N.max start n).
+  Proof.
+    destruct (reachable_inv part part_pos time_of index_of sort_by_time n0 ops) as [sv [evs [Hr Hi]]].
+    exists sv, evs. split; [exact Hr|]. intros s Hs. cbv zeta.
+    destruct (C16_search_pages_partition (sv_all sv) s fs maxr (S (N.to_nat (stream_len s (len (sv_all sv)) - start))) start (Hi s Hs))
+      as [pages [H1 [H2 [_ H4]]]]; [lia|]. exists pages. auto.
+  Qed.
+
   (* ---------------------------------------------------------------- lookups *)
   (* the algorithm of slice::binary_search_by of the toolchain keeps the documented contract *)
   Theorem C16_std_bsearch_meets_contract {A} (cmp : A -> comparison) l :
@@ -255,6 +272,7 @@ Print Assumptions C16_query_end_only_when_complete.
 Print Assumptions C16_window_prefix_always.
 Print Assumptions C16_ids_announced_first.
 Print Assumptions C16_search_pages_partition.
+Print Assumptions C16_search_pages_partition_reachable.
 Print Assumptions C16_std_bsearch_meets_contract.
 Print Assumptions C16_std_bsearch_returns_last_equal.
 Print Assumptions C16_stream_pos_first_not_before.
